@@ -541,6 +541,13 @@ class ConstructInterface(Interface):
                 elif fl[0] == 'raise':
                     out.append((s2, Raised(fl[1])))
             return out
+        if cls.name in ('BinExpr', 'UniExpr', 'Path', 'Path2', 'FuncPath'):
+            # expression nodes: immutable records of their constructor arguments (the real __init__ only stores them)
+            init = self.src.find('construct.expr:%s.__init__' % cls.name)
+            names = [a.arg for a in init.args.args[1:]]
+            fields = dict(zip(names, args))
+            fields.update(kws)
+            return [(st, VObj(cls.name, fields, ident=fresh('node', t.INT)))]
         if cls.name in ('LazyContainer', 'LazyListContainer'):
             # result objects of lazy parsing: their fields are the constructor arguments (real __init__ only stores them)
             init = self.src.find('construct.core:%s.__init__' % cls.name)
